@@ -408,4 +408,26 @@ funclit 0 in WithIPDiversityFilterLimit(ipDiversityFilterLimit int) Option
   props C16
   requires opt != nil
   ensures [stored-unchanged] result == nil && opt.ipDiversityFilterLimit == ipDiversityFilterLimit
+
+# ---- bulk operations: what is sent (C06) ------------------------------------------
+# the ADD_PROVIDER message of a bulk provide carries the key of the work item
+# and this node's record; it goes to the peer of the work item
+funclit 1 in (dht *FullRT) ProvideMany(ctx context.Context, keys []multihash.Multihash) (err error)
+  props C06
+  ghost at before call(NewMessage): assert($arg0 == dht_pb.Message_ADD_PROVIDER && str($arg1) == str(k))
+  ghost at before call(SendMessage): assert($arg0 == ctx && $arg1 == p && $arg2 == pmes && pmes.ProviderPeers == pbPeers)
+
+# the entry point of the provider search: a closed channel at once without
+# provider store or with an undefined CID, otherwise exactly one search
+# goroutine with the CID's multihash, the caller's count and the returned channel
+func (dht *FullRT) FindProvidersAsync(ctx context.Context, key cid.Cid, count int) (ch <-chan peer.AddrInfo)
+  props C08
+  ghostvar $mh multihash.Multihash = nil
+  ghostvar $def bool = false
+  ghostvar $started bool = false
+  modifies *
+  ensures [closed-at-once-or-search-started] $started || tagged("closed:peerOut")
+  ghost at call(Defined): $def = $ret0
+  ghost at call(Hash): $mh = $ret0
+  ghost at go(findProvidersAsyncRoutine): assert(dht.ProviderManager != nil && $def && $arg1 == $mh && $arg2 == count && $arg3 == peerOut && !$started); $started = true
 @*/
